@@ -550,7 +550,8 @@ def myrepr(v):
 
 def targets():
     return {
-        'short': {'a': {'b': [1, 2], 's': 'txt'}, 'n': 3, 'l': [{'b': 1}, {'c': 2}]},
+        # (with an empty string, True and None among the values: they are printed as such)
+        'short': {'a': {'b': [1, 2], 's': 'txt', 'e': '', 'flag': True}, 'n': 3, 'l': [{'b': 1}, {'c': 2}], 'none': None, 'yes': True, 'empty': ''},
         'long': {'a': {'b': list(range(1000)), 's': 'x' * 500}, 'n': 3, 'l': [{'b': 1}, {'c': 2}]},
         'unicode': {'a': {'b': ['éè', '中文'], 's': 'ü'}, 'n': 3, 'l': [{'b': 1}, {'c': 2}]},
     }
@@ -756,6 +757,23 @@ class Table(dict):
         return 'Table<%s>' % ', '.join('%r=%r' % kv for kv in self.items())
 
 
+class Cursor:
+    """a long-printing object whose len() raises something other than TypeError (a result set on a closed connection, a dead proxy)"""
+    def __init__(self, exc):
+        self.exc = exc
+
+    def __len__(self):
+        raise self.exc('no length available')
+
+    def __repr__(self):
+        return 'Cursor<%s>' % ', '.join('row%d' % i for i in range(N_LONG))
+
+
+class NegativeLen(Cursor):
+    def __len__(self):
+        return -1            # len() raises ValueError
+
+
 N_LONG = 150
 LONG_VALUES = {
     'ordereddict-reversed': lambda: collections.OrderedDict(('k%03d' % i, i) for i in reversed(range(N_LONG))),
@@ -773,6 +791,10 @@ LONG_VALUES = {
     'nine-levels-mixed': lambda: {'a': [{'b': ({'c': [{'d': [{'e': 'deep'}]}]},)}]},
     'cyclic-list': lambda: mk_cyclic_list(),
     'cyclic-dict': lambda: mk_cyclic_dict(),
+    'len-raises-RuntimeError': lambda: Cursor(RuntimeError),
+    'len-raises-ReferenceError': lambda: Cursor(ReferenceError),
+    'len-raises-TypeError': lambda: Cursor(TypeError),
+    'len-negative': lambda: NegativeLen(None),
     'short-dict-subclass': lambda: Table(a=1),
     'short-ordereddict': lambda: collections.OrderedDict([('b', 1), ('a', 2)]),
 }
